@@ -38,11 +38,18 @@ PLAN = [
 
 
 def signature(c, f):
-    """finding -> signature: kind, family with its distinguishing tags, observable, when"""
+    """finding -> signature: kind, family with its distinguishing tags[, observable, when].
+    Families / features whose state handling is recorded as a known finding are collapsed to
+    kind:family+tags (collapse == "all") or kind:family+tags:when (collapse == "obs")."""
     st = c.get("sigtags") or []
     fam = c["fam"] + ("".join("+" + t for t in st))
-    parts = f["sig"].split(":")
-    # engine signatures are <kind>:<fam>:<rest...>
+    parts = f["sig"].split(":")          # engine signatures are <kind>:<fam>:<rest...>
+    col = c.get("collapse")
+    if col == "all":
+        return ":".join([parts[0], fam])
+    if col == "obs":
+        when = parts[-1] if parts[0] == "resume" and parts[-1] in ("at-restart-step", "after", "final") else None
+        return ":".join([parts[0], fam] + ([when] if when else []))
     return ":".join([parts[0], fam] + parts[2:])
 
 
@@ -200,7 +207,7 @@ def replay(path):
         c["fmts"] = [rp["fmt"]] if rp.get("fmt") else c["fmts"]
     lines = R.scenario(c, d)
     print("\n".join(lines))
-    rc, out, err = E.run_scenario(exe, lines)
+    rc, out, err = E.run_scenario(exe, lines, cwd=d)
     print("\n".join(out))
     for f in E.judge(c, d, out, rc, err):
         print("FINDING", f["sig"], "|", f["what"])
